@@ -263,6 +263,20 @@ pub fn rstrategy(r: &mut StdRng, claims: &Value, allow_bad: bool) -> StratSpec {
                     paths.push(PathSpec { raw: render_path(&p, r, None), tok: p, malformed: false });
                 }
             }
+            // an index of an existing element spelled non-canonically ([01], [+1], [1 ], ...): a different token, names no claim
+            if r.gen_bool(0.6) {
+                let with_idx: Vec<&Vec<String>> = all.iter().filter(|p| p.iter().skip(1).any(|t| is_idx(t))).collect();
+                if !with_idx.is_empty() {
+                    let mut p = with_idx[r.gen_range(0..with_idx.len())].clone();
+                    let at = (1..p.len()).filter(|i| is_idx(&p[*i])).last().unwrap();
+                    let n = p[at][1..p[at].len() - 1].to_string();
+                    p[at] = [format!("[0{n}]"), format!("[+{n}]"), format!("[{n} ]"), format!("[ {n}]"), format!("[-{n}]"), format!("[{n}.0]"), format!("[0x{n}]")][r.gen_range(0..7)].clone();
+                    p.truncate(at + 1 + r.gen_range(0..2).min(p.len() - at - 1));
+                    if !all.contains(&p) {
+                        paths.push(PathSpec { raw: render_path(&p, r, None), tok: p, malformed: false });
+                    }
+                }
+            }
             if allow_bad && r.gen_bool(0.08) {
                 let raw = ["a", "$a", ".a", "", "$", "$$.a", " $.a"][r.gen_range(0..7)].to_string();
                 paths.push(PathSpec { raw, tok: vec![], malformed: true });
